@@ -6,10 +6,11 @@ import struct
 
 from vlib import env
 import tables
-from checks.common import t_oblig, bounded_part, want, contract_sources
+from checks.common import make_replay, t_oblig, bounded_part, want, contract_sources
 from pysym.harness import run_cases
 
 LEVEL = 'proof'
+replay = make_replay('C09')
 FINISH = dict(
     rule='P/X: one obligation per path of the real word-building regions, per pure bit-level lemma, per element for the any-metal mask; '
          'B: (query, molecule) pairs, non-trivial = at least one mapping',
